@@ -22,7 +22,10 @@ func VerifC47_newPipe() {
 	opt.RingScaleEachConn = 1
 	user, pass := "", ""
 	credsFail := false
-	switch verifChoose(5) {
+	switch verifChoose(6) {
+	case 5:
+		user = "u" // an ACL user without password: still authenticates as that user
+		opt.Username = user
 	case 1:
 		pass = "pw"
 		opt.Password = pass
